@@ -11,7 +11,7 @@ CONSTANTS
   NCAP = 0
   HOF = 0
   MAXD = 6
-  MAXDSLOW = 4
+  MAXDSLOW = 3
   LEN = 1
   MUTANT = FALSE
 INVARIANTS TypeOK Emit Proto
